@@ -50,3 +50,11 @@ contract("ChangeCollector.get_changed", source=M + "ChangeCollector.get_changed"
              "forall(lambda j: implies(0 <= j and j < i, gapB(str_join('', pieces), self.text, self.changes, j) and replC(str_join('', pieces), self.changes, j)))"]}},
          note="positional specification: (A) length, (B) every gap kept at its offset, (C) every replacement placed right after it, (D) tail kept -- "
               "together they determine every character of the result")
+
+from bounded import c02_binder as _bb, c01_projects as _bp
+bounded_check(name="c01-rename-binder", props=["C01"], fn=_bb.rename_case, domain=_bb.domain, exhaustive=True,
+              label="B3: 30 single-module programs (one per scoping feature): every binding renamed from every one of its tokens; result parses, binder partition "
+                    "preserved under the token map (alpha-equivalence), same output")
+bounded_check(name="c01-rename-projects", props=["C01"], fn=_bp.run_case, domain=_bp.domain, exhaustive=True,
+              label="B3: 9 multi-module projects (from-import with same-named parameter, __init__/__call__ keywords, nested packages with two renames in one session, "
+                    "multi-name global, variable named like its module, **kwargs, methods across modules, aliases, rf-strings): rename from every occurrence, run, compare output")
